@@ -12,6 +12,7 @@ from typing import (
     Union,
 )
 
+import numpy as np
 import onnx_ir as ir
 
 import onnxscript
@@ -135,6 +136,17 @@ def make_value(
     value.meta.setdefault("sourceinfo", source_info)
     if typeinfo is not None:
         set_type_info(value, typeinfo)
+    return value
+
+
+def _snapshot_constant(value: Any) -> Any:
+    """Copy a numpy array referenced as a script-time constant.
+
+    ir.tensor() wraps an array without copying it, so a later in-place mutation of the
+    caller's array would otherwise change the protos generated from the function.
+    """
+    if isinstance(value, np.ndarray):
+        return value.copy()
     return value
 
 
@@ -442,7 +454,7 @@ class Converter:
         ovar = self._generate_unique_name(suggested_name)
 
         try:
-            tensor = ir.tensor(pyvalue, name=ovar)
+            tensor = ir.tensor(_snapshot_constant(pyvalue), name=ovar)
         except Exception as exc:  # pylint: disable=broad-exception-caught
             self._fail(
                 info.ast_node,
@@ -579,7 +591,7 @@ class Converter:
             return None
         attr_type = attr_meta.type if attr_meta else None
         if attr_type == ir.AttributeType.TENSOR:
-            val = ir.tensor(val)
+            val = ir.tensor(_snapshot_constant(val))
         attr = ir.convenience.convert_attribute(attr_name, val, attr_type)
         return attr
 
